@@ -378,6 +378,19 @@ func (d *Driver) handleWriteCommands(devName string, p protocolMap, reqs []dsMod
 		llrpReq = &addSpec           // but we want to send AddROSpec, not just ROSpec
 		llrpResp = &llrp.AddROSpecResponse{}
 
+	case ResourceAccessSpec:
+		// Object value types come in as a map[string]interface{} which need to be
+		// marshaled back to JSON
+		reqData, err = json.Marshal(params[0].Value)
+		if err != nil {
+			return err
+		}
+
+		addSpec := llrp.AddAccessSpec{}
+		dataTarget = &addSpec.AccessSpec // the incoming data is an AccessSpec, not AddAccessSpec
+		llrpReq = &addSpec               // but we want to send AddAccessSpec, not just AccessSpec
+		llrpResp = &llrp.AddAccessSpecResponse{}
+
 	case ResourceROSpecID:
 		if len(params) != 2 {
 			return fmt.Errorf("expected 2 resources for ROSpecID op, but got %d", len(params))
